@@ -213,6 +213,92 @@ fn instantiate(t: &str, alt: usize, index: Option<u32>) -> String {
     }
 }
 
+/// Lane `secret`: a descriptor written with an extended PRIVATE key (hardened and normal steps in
+/// any order) is parsed with `Descriptor::parse_descriptor`; the public descriptor it returns
+/// must pay, at every index, to the key that rust-bitcoin's BIP32 derives from the private key
+/// along the written path.
+fn secret_case(src: &mut Src, rep: &mut Report) -> Result<(), Failure> {
+    use bitcoin::bip32::ChildNumber;
+    let u = keys::u();
+    let secp = secp256k1::Secp256k1::new();
+    let a = src.below(keys::N_ACCOUNTS);
+    let xprv = u.accounts[a].1;
+    let n = src.range(0, 4);
+    let mut steps: Vec<ChildNumber> = Vec::new();
+    let mut text = xprv.to_string();
+    for _ in 0..n {
+        let v = src.range(0, 9) as u32;
+        let hardened = src.chance(1, 3);
+        steps.push(if hardened { ChildNumber::from_hardened_idx(v).unwrap() } else { ChildNumber::from_normal_idx(v).unwrap() });
+        text.push_str(&format!("/{}{}", v, if hardened { *src.pick(&["'", "h"]) } else { "" }));
+    }
+    let wildcard = src.chance(2, 3);
+    if wildcard {
+        text.push_str("/*");
+    }
+    let origin = src.chance(1, 3);
+    if origin {
+        text = format!("[{}/1'/2]{}", keys::master_fingerprint(), text);
+    }
+    let wrapper = src.below(3);
+    let dtext = match wrapper {
+        0 => format!("wpkh({})", text),
+        1 => format!("pkh({})", text),
+        _ => format!("wsh(pk({}))", text),
+    };
+    rep.desc = dtext.clone();
+    let (desc, keymap) = match Descriptor::<DescriptorPublicKey>::parse_descriptor(&secp, &dtext) {
+        Ok(x) => x,
+        Err(e) => return fail("secret-descriptor-rejected", format!("`{}` is rejected: {}", dtext, e)),
+    };
+    if keymap.len() != 1 {
+        return fail("secret-keymap", format!("`{}`: key map has {} entries", dtext, keymap.len()));
+    }
+    let idx = if wildcard { *src.pick(&[0u32, 1, 7, 1000, 0x7fff_ffff]) } else { 0 };
+    let mut path = steps.clone();
+    if wildcard {
+        path.push(ChildNumber::from_normal_idx(idx).unwrap());
+    }
+    let want_sk = xprv.derive_priv(&secp, &path).map_err(|e| Failure { sig: "bip32".into(), msg: e.to_string() })?;
+    let want_pk = bitcoin::PublicKey::new(want_sk.private_key.public_key(&secp));
+    let def = match desc.at_derivation_index(idx) {
+        Ok(d) => d,
+        Err(e) => return fail("secret-derive-fails", format!("`{}` at index {}: {}", dtext, idx, e)),
+    };
+    let want_spk = match wrapper {
+        0 => bitcoin::ScriptBuf::new_p2wpkh(&want_pk.wpubkey_hash().map_err(|e| Failure { sig: "key".into(), msg: e.to_string() })?),
+        1 => bitcoin::ScriptBuf::new_p2pkh(&want_pk.pubkey_hash()),
+        _ => {
+            let mut ws = Vec::new();
+            crate::mirror::encode::push_bytes(&mut ws, &want_pk.to_bytes());
+            ws.push(0xac);
+            bitcoin::ScriptBuf::from_bytes(crate::mdesc::p2wsh_spk(&ws))
+        }
+    };
+    if def.script_pubkey() != want_spk {
+        return fail(
+            "secret-to-public-derives-other-key",
+            format!("`{}` at index {} pays to {} but BIP32 derivation of the private key along the written path gives {}", dtext, idx, def.script_pubkey().to_hex_string(), want_spk.to_hex_string()),
+        );
+    }
+    // the key map entry is the written secret key
+    for (pk, sk) in keymap.into_iter() {
+        if sk.to_string().replace('h', "'") != text.replace('h', "'") {
+            return fail("secret-keymap-entry", format!("key map holds `{}` for `{}`", sk, text));
+        }
+        match sk.to_public(&secp) {
+            Ok(p2) if p2 == pk => {}
+            other => return fail("secret-keymap-public", format!("to_public() of the key map entry is {:?}, the descriptor holds {}", other.map(|x| x.to_string()), pk)),
+        }
+    }
+    let mixed = steps.iter().any(|c| c.is_hardened()) && steps.iter().any(|c| c.is_normal());
+    rep.class(if mixed { "secret:mixed-steps" } else { "secret:uniform-steps" });
+    if n >= 2 && mixed {
+        rep.nontrivial_by(&(dtext, idx));
+    }
+    Ok(())
+}
+
 impl Check for C16 {
     fn id(&self) -> &'static str { "C16" }
     fn rule(&self) -> String {
@@ -220,11 +306,14 @@ impl Check for C16 {
     }
     fn lanes(&self, tier: Tier) -> Vec<(&'static str, usize, usize)> {
         match tier {
-            Tier::Quick => vec![("definite", 160_000, 300), ("derive", 120_000, 300), ("multipath", 80_000, 300)],
-            Tier::Thorough => vec![("definite", 3_200_000, 400), ("derive", 2_400_000, 400), ("multipath", 1_600_000, 400)],
+            Tier::Quick => vec![("definite", 160_000, 300), ("derive", 120_000, 300), ("multipath", 80_000, 300), ("secret", 40_000, 100)],
+            Tier::Thorough => vec![("definite", 3_200_000, 400), ("derive", 2_400_000, 400), ("multipath", 1_600_000, 400), ("secret", 800_000, 100)],
         }
     }
     fn run_case(&self, lane: &str, src: &mut Src, rep: &mut Report) -> Result<(), Failure> {
+        if lane == "secret" {
+            return secret_case(src, rep);
+        }
         let kind = pick_kind(src);
         let size = src.range(1, 6);
         let d = gen::gen_desc(src, kind, &|ctx| {
